@@ -257,6 +257,8 @@ def main():
             hs = ["reads-interleaved", "decoy-links-replaced", "decoy-attachments-replaced", "speed-clamp-only"]
             for h in (hs if args.thorough else [hs[k % 4], "speed-clamp-only"][: 1 + (k % 2)]):
                 items.append((t.to_json(), ("array", "scalar")[(k + 1) % 2], args.seed + k, timeout, ("numpy", "SX"), False, h))
+            if args.thorough or k % 3 == 1:
+                items.append((t.to_json(), ("array", "scalar")[k % 2], args.seed + k, timeout, ("numpy",), False, "same-names"))
     results = harness.pmap(work, items, args.serial)
     viol, inc, tot, levels, samples, st, _ = netcheck.summarize(results)
     cov = netcheck.base_coverage(
